@@ -7,7 +7,7 @@ import cobs
 
 PARA_LINES = ['This program is free software', 'you can redistribute it and/or modify', 'it under the terms of the GNU GPL: v2', 'é ü non-ascii words',
               'See /usr/share/common-licenses/GPL-2', 'x', 'a  b', '(c) 2001', 'http://example.org:80/x', '-- dashes --', 'Note: see GPL-2', 'Copyright: 2001 quoted in a text', 'License : spaced colon', 'x:']
-VERB_LINES = ['indented code', ' more indented', 'x = 1;', '. dot first', '.', '..', ' .']
+VERB_LINES = ['indented code', ' more indented', 'x = 1;', '. dot first', '.', '..', ' .', '\u00a0nbsp first', '\u3000ideographic first', '\t tab then text', '\u2003\u00a0x']
 STATEMENTS = ['2001 Foo Bar', '2001-2003, 2005 Foo <f@x.org>', 'Foo Bar', '(C) 2001 X', '2001, Foo', '1999', '2001-2003 a b c d', 'Copyright Holder Inc.', '2001/2002 X',
               'Copyright (c) 2004-2006 Joe Bloggs', '(C) Copyright IBM Corp. 2001', 'copyright 2001 x', '\u00a9 2019 Y', 'Copyright: 2001 Z',
               '\uff12\uff10\uff11\uff18 \u5c71\u7530\u592a\u90ce', '\u0662\u0660\u0660\u0661 x', '2018\u20102019 X', '\u00b2 squared', '2001\uff0d2003 Y', '\u0967\u096f\u096f\u096f']
